@@ -21,7 +21,7 @@ from .c20 import fresh_requirements, r_freshcopy
 
 MANIFEST = {
     "level": "other",
-    "technique": "static analysis: symbolic bound facts from clamp idioms (if v < E: v = E) on the symbolically evaluated root(), typestate of the Newton iterate against the loop-carried bracket, must-pass-through ordering in set(), range-refusal path rule, fresh-container analysis for the copy constructor, exhaustive evaluation of the ordering routine on every weak ordering of the abscissae and of the duplicate test, partial evaluation of the conjunction helpers for every table size 3..9 (time axis and ordinates handed to the interpolant)",
+    "technique": "static analysis: symbolic bound facts from clamp idioms (if v < E: v = E) on the symbolically evaluated root(), typestate of the Newton iterate against the loop-carried bracket, must-pass-through ordering in set(), range-refusal path rule, fresh-container analysis for the copy constructor, exhaustive evaluation of the ordering routine on every weak ordering of the abscissae and of the duplicate test, symbolic execution of the Newton coefficient table for 2..6 points (one divided difference per abscissa on every path), partial evaluation of the conjunction helpers for every table size 3..9 (time axis and ordinates handed to the interpolant)",
     "text": "Decides for every call (not sampled limits) that root() evaluates the interpolant only inside the table, that any accepted Newton iterate is checked against the current bracket (so the answer stays in [xl, xh]), that out-of-range and duplicated abscissae are refused before any table is computed, and that the shared lists of a copy are never mutated in place. The ordering step is shown to sort every ordering of the input points, and the conjunction helpers to tabulate the coordinate differences against n = -k..k with the middle used entry at n = 0 for every table size (even sizes lose their last entry). Polynomial reproduction to 1e-9 and convergence of the iteration are numerical and not decided.",
     "note": "Trusted: the clamp idioms enumerated in the checker (if v < m: v = m / if v > M: v = M and their <=, >= and min/max forms). Undecided: reproduction of polynomials and derivatives, convergence, sign-change existence.",
 }
@@ -77,12 +77,69 @@ def run(repo, rep, tier):
     sorts_every_ordering(repo, rep)
     r_freshcopy_local(repo, rep)
     clients(repo, rep)
+    table_complete(repo, rep)
     time_axis(repo, rep)
     fam = [(MOD, "%s.%s" % (CLS, q)) for q in ("set", "_order_points", "_compute_table", "_newton_diff", "__call__", "derivative", "root", "minmax")]
     effects.check_functions(repo, rep, fam)
     guards.check_functions(repo, rep, fam)
     raises(repo, rep, fam)
     return "other"
+
+
+def table_complete(repo, rep):
+    """R-TABLE-LEN: the interpolating polynomial through n points needs n Newton coefficients, one divided difference f[x0..xi]
+    per abscissa, in order.  _compute_table is executed symbolically on tables of 2..6 symbolic points (loop unrolled, early
+    exits turned into path conditions): on every path the coefficient table must be exactly [f[x0], f[x0,x1], ..., f[x0..x_{n-1}]]
+    - a path that stops early (e.g. at a vanishing leading difference) drops the higher-order terms although they need not vanish."""
+    rep.rule("R-TABLE-LEN", "the Newton coefficient table holds one divided difference per abscissa on every path (tables of 2..6 points)")
+    q = CLS + "._compute_table"
+    site = "%s.%s" % (MOD, q)
+    rep.fn(MOD, q)
+    bad = None
+    unknown = None
+    n_ok = 0
+    for n in range(2, 7):
+        xs = ("list",) + tuple(T.sym("X%d" % i) for i in range(n))
+        ys = ("list",) + tuple(T.sym("Y%d" % i) for i in range(n))
+        try:
+            outs, _ = symx.eval_function(repo, MOD, q, arg_terms={"self": T.sym("self")},
+                                         extra_env={"self._x": xs, "self._y": ys, "self._table": ("list",)}, unroll=12)
+        except AnalysisError as e:
+            unknown = str(e)
+            break
+        want = ("list",) + tuple(T.call("%s.%s._newton_diff" % (MOD, CLS), T.sym("self"), T.num(0), T.num(i)) for i in range(n))
+        for o in outs:
+            if o.kind == "raise":
+                continue
+            tab = o.env.get("self._table")
+            if tab is None:
+                unknown = "no coefficient table left in self._table"
+                break
+            from ..rules import phi_leaves
+            for conds, leaf in phi_leaves(tab):
+                if leaf[0] != "list":
+                    unknown = "coefficient table is not built as a list: " + T.show(leaf)[:60]
+                    break
+                if leaf != want and bad is None:
+                    if len(leaf) != len(want):
+                        bad = (n, "holds %d coefficient(s) for %d points when %s" % (len(leaf) - 1, n, T.show(T.land(*conds))[:120] if conds else "always"))
+                    elif all(x[0] == "call" and x[1].endswith("_newton_diff") for x in leaf[1:]):
+                        bad = (n, "is %s, not the leading divided differences f[x0..xi], i = 0..%d" % (T.show(leaf)[:100], n - 1))
+                    else:
+                        unknown = "coefficients are not plain _newton_diff(0, i) calls: " + T.show(leaf)[:80]
+            if unknown:
+                break
+        if unknown or bad:
+            break
+        n_ok += 1
+    if bad:
+        rep.violation("R-TABLE-LEN", site, "table-length:n=%d" % bad[0], "for a table of %d points the Newton coefficient table %s: the interpolant no longer passes through "
+                      "every point / reproduces polynomials of degree below n" % (bad[0], bad[1]), obligation=True)
+    elif unknown:
+        rep.inconcl("R-TABLE-LEN", site, unknown)
+    else:
+        rep.ok("R-TABLE-LEN", site, "one leading divided difference per abscissa, in order, on every path (tables of 2..6 points)", obligation=True)
+        rep.floor("table sizes executed for the Newton coefficient table", n_ok, 5)
 
 
 def time_axis(repo, rep):
